@@ -31,6 +31,9 @@ def standing_search(ctx):
     global LAST_SEARCH_CANDIDATES
     import enccorr
     hits, n = enccorr.monitor_trips(ctx)
+    h2, n2 = enccorr.monitor_rotation(ctx, "C06")
+    h3, n3 = enccorr.monitor_shared(ctx, "C06")
+    hits, n = hits + h2 + h3, n + n2 + n3
     LAST_SEARCH_CANDIDATES = n
     seen, out = set(), []
     for h in hits:
@@ -109,6 +112,12 @@ def search(ctx, broken, corr_broken):
 
 
 def replay(rp):
+    if rp.get("kind") == "rotation":
+        import enccorr
+        return enccorr.replay_rotation(rp)
+    if rp.get("kind") == "encoder-history":
+        import enccorr
+        return enccorr.replay_shared(rp)
     if rp.get("kind") == "message-trip":
         import enccorr
         return enccorr.replay_trip(rp)
